@@ -2,109 +2,15 @@
    regenerated from xgi/core/simplicialcomplex.py on every run (Gen/ScMutators.v), run under the semantics of Model/PyIR.v,
    are the model's insert_edge / remove_edge1. *)
 From Coq Require Import String ZArith List Bool Lia.
-From XV Require Import Base.Label Base.LSet Base.ODict Base.Attr Base.Outcome Model.Hypergraph Model.PyIR Gen.Mutators Gen.ScMutators
-     Proofs.HgViews Proofs.HgInv Proofs.MutatorSource.
+From XV Require Import Base.Label Base.LSet Base.ODict Base.Attr Base.Outcome Model.Hypergraph Model.PyIR Gen.ScMutators
+     Proofs.HgViews Proofs.HgInv Proofs.IRLemmas.
 Import ListNotations.
 Open Scope Z_scope.
-
-Lemma exec_setmembers t k en s : exec (SSetMembers t k) en s =
-  if is_none (veval k en) then (s, Raised XGIError) else (set_tab t s (set (veval k en) (e_members en) (tab t s)), Ok).
-Proof. reflexivity. Qed.
 
 (* _remove_simplex_id(idx) is, statement for statement, Hypergraph.remove_edge *)
 Theorem sc_remove_simplex_id_is_source e s : Inv s ->
   run_method src_sc_remove_simplex_id [e] [] s = remove_edge1 e s.
-Proof. intro I. change src_sc_remove_simplex_id with src_remove_edge. apply remove_edge_is_source. exact I. Qed.
-
-(* the member loop of the two adding helpers: create the node if new, record the membership on the node side *)
-Definition nstep (e : lbl) (s : hg) (x : lbl) : hg := node_add x e (ensure_node x s).
-
-Lemma nstep_loop_ok (pre : list stmt) k e en :
-  (forall x, veval VLoop (with_loop en x) = x) -> (forall x, veval k (with_loop en x) = e) ->
-  (forall x s, is_none x = false -> exec_list pre (with_loop en x) s = (s, Ok)) ->
-  forall xs s, (forall x, In x xs -> is_none x = false) ->
-  iter_list [SIf (BNot (BIn VLoop TNode)) (pre ++ [SNewSet TNode VLoop; SNewAttr TNode VLoop]) []; SAdd TNode VLoop k] en xs s
-  = (fold_left (nstep e) xs s, Ok).
-Proof.
-  intros Vl Vk Hpre. induction xs as [|x xs IH]; intros s Hn; [reflexivity|]. cbn [iter_list fold_left].
-  assert (Nx : is_none x = false) by (apply Hn; left; reflexivity).
-  assert (Step : exec_list [SIf (BNot (BIn VLoop TNode)) (pre ++ [SNewSet TNode VLoop; SNewAttr TNode VLoop]) []; SAdd TNode VLoop k]
-                   (with_loop en x) s = (nstep e s x, Ok)).
-  { rewrite exec_list_cons, exec_if. cbn [beval tab]. rewrite Vl. unfold nstep, ensure_node.
-    destruct (has x (h_node s)) eqn:Hx; cbn [negb].
-    - rewrite exec_list_nil, exec_list_cons, exec_add. rewrite Vl, Vk. cbn [tab].
-      unfold has in Hx. destruct (get x (h_node s)) as [l|] eqn:G; [|discriminate Hx].
-      rewrite exec_list_nil. unfold node_add, getl. rewrite G. reflexivity.
-    - assert (P : exec_list (pre ++ [SNewSet TNode VLoop; SNewAttr TNode VLoop]) (with_loop en x) s =
-                  (with_nattr (with_node s (set x [] (h_node s))) (set x [] (h_nattr s)), Ok)).
-      { assert (App : forall l1 l2 en0 s0 s1, exec_list l1 en0 s0 = (s1, Ok) -> exec_list (l1 ++ l2) en0 s0 = exec_list l2 en0 s1).
-        { induction l1 as [|q r IHl]; intros l2 en0 s0 s1 H; [cbn [exec_list] in H; injection H as <-; reflexivity|].
-          cbn [app]. rewrite exec_list_cons in *. destruct (exec q en0 s0) as [s' [|y]]; [apply IHl; exact H|discriminate H]. }
-        rewrite (App pre _ _ s s (Hpre x s Nx)).
-        rewrite exec_list_cons, exec_newset, Vl, Nx. rewrite exec_list_cons, exec_newattr, Vl, Nx. rewrite exec_list_nil. reflexivity. }
-      rewrite P. rewrite exec_list_cons, exec_add, Vl, Vk. cbn [tab h_node with_node with_nattr]. rewrite get_set_same, exec_list_nil.
-      unfold node_add, getl. cbn [h_node with_node with_nattr]. rewrite get_set_same. reflexivity. }
-  rewrite Step. apply IH. intros y Hy. apply Hn. right. exact Hy.
-Qed.
-
-(* the same loop, seen from the model: attach = the node-side step plus the addition to the edge's own set *)
-Lemma nstep_h_edge e x s : h_edge (nstep e s x) = h_edge s.
-Proof. unfold nstep, node_add, ensure_node. destruct (has x (h_node s)); reflexivity. Qed.
-Lemma nstep_with_edge e x s v : nstep e (with_edge s v) x = with_edge (nstep e s x) v.
-Proof. unfold nstep, node_add, ensure_node. cbn [h_node with_edge]. destruct (has x (h_node s)); reflexivity. Qed.
-Lemma fold_nstep_with_edge e v : forall xs s, fold_left (nstep e) xs (with_edge s v) = with_edge (fold_left (nstep e) xs s) v.
-Proof. induction xs as [|x xs IH]; intro s; [reflexivity|]. cbn [fold_left]. rewrite nstep_with_edge. apply IH. Qed.
-Lemma fold_nstep_h_edge e : forall xs s, h_edge (fold_left (nstep e) xs s) = h_edge s.
-Proof. induction xs as [|x xs IH]; intro s; [reflexivity|]. cbn [fold_left]. rewrite IH. apply nstep_h_edge. Qed.
-Lemma fold_nstep_h_eattr e : forall xs s, h_eattr (fold_left (nstep e) xs s) = h_eattr s.
-Proof.
-  induction xs as [|x xs IH]; intro s; [reflexivity|]. cbn [fold_left]. rewrite IH.
-  unfold nstep, node_add, ensure_node. destruct (has x (h_node s)); reflexivity.
-Qed.
-
-Lemma h_eattr_with_edge s v : h_eattr (with_edge s v) = h_eattr s.
-Proof. reflexivity. Qed.
-Lemma h_edge_with_edge s v : h_edge (with_edge s v) = v.
-Proof. reflexivity. Qed.
-Lemma with_eattr_with_eattr s v w : with_eattr (with_eattr s v) w = with_eattr s w.
-Proof. reflexivity. Qed.
-Lemma with_edge_with_edge s v w : with_edge (with_edge s v) w = with_edge s w.
-Proof. reflexivity. Qed.
-
-Lemma fold_attach_split e : forall xs s acc, get e (h_edge s) = Some acc ->
-  fold_left (attach e) xs s =
-  with_edge (fold_left (nstep e) xs s) (set e (fold_left (fun a x => sadd x a) xs acc) (h_edge s)).
-Proof.
-  induction xs as [|x xs IH]; intros s acc G; cbn [fold_left].
-  - destruct s as [n na ed ea net u]. unfold with_edge. cbn [h_node h_nattr h_edge h_eattr h_net h_uid] in *. f_equal.
-    clear - G. induction ed as [|[k v] r IHr]; [discriminate G|]. cbn [get set] in *. destruct (lbl_eqb e k); [injection G as <-; reflexivity|].
-    f_equal. apply IHr. exact G.
-  - assert (E : attach e s x = with_edge (nstep e s x) (set e (sadd x acc) (h_edge s))).
-    { assert (H : h_edge (node_add x e (ensure_node x s)) = h_edge s) by (apply (nstep_h_edge e x s)).
-      unfold attach, edge_add, nstep, getl. rewrite H, G. reflexivity. }
-    rewrite E. rewrite (IH _ (sadd x acc)).
-    + rewrite fold_nstep_with_edge. cbn [h_edge with_edge]. rewrite with_edge_with_edge, set_set_same. reflexivity.
-    + cbn [h_edge with_edge]. apply get_set_same.
-Qed.
-
-Lemma fold_sadd_nodup : forall xs acc, NoDup (acc ++ xs) -> fold_left (fun a x => sadd x a) xs acc = acc ++ xs.
-Proof.
-  induction xs as [|x xs IH]; intros acc ND; cbn [fold_left]; [rewrite app_nil_r; reflexivity|].
-  assert (Nm : mem x acc = false).
-  { destruct (mem x acc) eqn:E; [|reflexivity]. exfalso. apply mem_In in E. apply NoDup_remove_2 in ND. apply ND. apply in_or_app. left. exact E. }
-  assert (Es : sadd x acc = acc ++ [x]) by (unfold sadd; rewrite Nm; reflexivity).
-  rewrite Es, IH; rewrite <- app_assoc; [reflexivity|exact ND].
-Qed.
-
-Lemma insert_edge_as_nstep e ms a s : NoDup ms ->
-  insert_edge e ms a s =
-  with_eattr (with_edge (fold_left (nstep e) ms s) (set e ms (h_edge s))) (set e (aupdate [] a) (h_eattr s)).
-Proof.
-  intro ND. unfold insert_edge.
-  rewrite (fold_attach_split e ms (with_edge s (set e [] (h_edge s))) []) by (cbn [h_edge with_edge]; apply get_set_same).
-  rewrite fold_nstep_with_edge. cbn [h_edge h_eattr with_edge]. rewrite with_edge_with_edge, set_set_same, fold_nstep_h_eattr.
-  rewrite (fold_sadd_nodup ms []) by exact ND. reflexivity.
-Qed.
+Proof. exact (remove_edge_prog_ok e s). Qed.
 
 (* _add_face(members): the id is drawn from the counter *)
 Theorem sc_add_face_is_source ms s : NoDup ms -> existsb is_none ms = false ->
@@ -116,7 +22,7 @@ Proof.
     assert (existsb is_none ms = true) by (apply existsb_exists; exists x; split; assumption). congruence. }
   rewrite exec_list_cons, exec_binduid. hgs.
   set (e := LInt (h_uid s)). set (s0 := with_uid s (h_uid s + 1)).
-  set (en := mkEnv [] [] LNone [] LNone [] ms None e).
+  set (en := mkEnv [] [] LNone [] LNone [] ms None e []).
   rewrite exec_list_cons, exec_setmembers. change (veval VUid en) with e. change (is_none e) with false. cbn [tab set_tab e_members en].
   rewrite exec_list_cons, exec_formembers. change (e_members en) with ms.
   change [SNewSet TNode VLoop; SNewAttr TNode VLoop] with ([] ++ [SNewSet TNode VLoop; SNewAttr TNode VLoop]).
@@ -134,7 +40,7 @@ Proof.
   assert (Hms : forall x, In x ms -> is_none x = false).
   { intros x Hx. destruct (is_none x) eqn:E; [|reflexivity]. exfalso.
     assert (existsb is_none ms = true) by (apply existsb_exists; exists x; split; assumption). congruence. }
-  set (en := mkEnv [] [] LNone a LNone [] ms (Some e) LNone).
+  set (en := mkEnv [] [] LNone a LNone [] ms (Some e) LNone []).
   rewrite exec_list_cons, exec_newset. change (veval VIdx en) with e. rewrite Ne. cbn [tab set_tab].
   rewrite exec_list_cons, exec_formembers. change (e_members en) with ms.
   change [SIf (BIsNone VLoop) [SRaise ValueError] []; SNewSet TNode VLoop; SNewAttr TNode VLoop]
@@ -150,3 +56,4 @@ Proof.
   rewrite (insert_edge_as_nstep e ms a s ND).
   rewrite fold_nstep_with_edge, with_eattr_with_eattr, !h_eattr_with_edge, !h_edge_with_edge, with_edge_with_edge, set_set_same, fold_nstep_h_eattr. reflexivity.
 Qed.
+
